@@ -278,8 +278,8 @@ def diff(a, b, presorted=False, buffersize=None, tempdir=None, cache=True,
     """
 
     if not presorted:
-        a = sort(a)
-        b = sort(b)
+        a = sort(a, buffersize=buffersize, tempdir=tempdir, cache=cache)
+        b = sort(b, buffersize=buffersize, tempdir=tempdir, cache=cache)
     added = complement(b, a, presorted=True, buffersize=buffersize,
                        tempdir=tempdir, cache=cache, strict=strict)
     subtracted = complement(a, b, presorted=True, buffersize=buffersize,
